@@ -125,7 +125,9 @@ def faithful (j : Journal) (spans : List Span) : Prop :=
   (∀ n ∈ treeTNodes j, n.sane = true) ∧ ∀ s, s ∈ treeNodes j ↔ s ∈ spans
 
 def faithfulB (j : Journal) (spans : List Span) : Bool :=
-  (treeTNodes j).all TNode.sane && (treeNodes j).all (spans.contains ·) && spans.all ((treeNodes j).contains ·)
+  (treeTNodes j).all TNode.sane &&
+  (treeNodes j).all (fun s => spans.any fun t => decide (t = s)) &&
+  spans.all (fun s => (treeNodes j).any fun t => decide (t = s))
 
 def Workspace.faithful (ws : Workspace) : Prop := ∀ f ∈ ws.files, HL.Spec.Occ.faithful f.tree f.spans
 
